@@ -62,7 +62,9 @@ def run(tier, seed, model_ok, translator, search=False):
                 "least one TABLE block; distinct by (representation, block abstract form).")
     rng = make_rng(seed, "C20")
     pool = _pool()
-    grid_regex = translator["values"]["bundle_name_regex"]
+    # the oracle's notion of a cell-grid table name is fixed here (the text after `**` up to the first blank),
+    # independent of the source: a changed regex in store.py is a changed behaviour, not a changed spec
+    grid_regex = r"^\s*\*\*(\S+)\s*"
     n_cases = 4000 if tier == "thorough" else 500
     ops, pend = [], []
 
